@@ -302,6 +302,22 @@ func sqlLengthBoundaries(emit func(string)) {
 			}
 		}
 	}
+	// the five-token special cases of fold, with a sixth token already in the window and without
+	for _, core := range []string{"1,(1)", "1+(1)", "1=(1)", "x=(1)", "x=(y)", "x<(1)", "1),(1", "x)=(y", "x)+(y", "1) , ( 1", "x ) = ( y"} {
+		for _, pre := range []string{"", "(", "-", "1 or ", "x,", "select "} {
+			for _, suf := range []string{"", " 2", "x", ",2", ")", "(", " or 1", ";", "'a'", " union", "-- ", ",(2)", ")=(1", " x y", " 1 2 3", "=1", ") or (1"} {
+				emit(pre + core + suf)
+			}
+		}
+	}
+	// ... and completed only by a re-categorisation when six tokens are in the window
+	for _, t := range []string{"1),(\\+1", "1),(\\*2", "1),(\\-", "1),(\\/x", "x)=(in 1", "x)=(in y", "x)+(not in z", "x)=(in 'a'", "1 ),( \\ + 1", "y ) < ( in 2",
+		"1,(\\+)", "x=(in)", "x=(in) 1", "1+(\\*) 2"} {
+		for _, pre := range []string{"", "(", "-"} {
+			emit(pre + t)
+			emit(pre + t + " or 1=1")
+		}
+	}
 	emit("is not distinct from")
 	emit("not similar to")
 	emit("natural left outer join")
